@@ -5,7 +5,7 @@ P=$1; V=$2; T=${3:-quick}; C=${4:-$P}
 if [ -n "${SEEDROOT:-}" ]; then SRC=$SEEDROOT/$P/$V; else SRC=/verif/seeded/$P$V; [ -d "$SRC" ] || SRC=/tmp/seedout/$P/$V; fi
 cd /repo
 git diff --quiet || { echo "/repo dirty"; exit 2; }
-git apply $SRC/patch.diff || { echo "PATCH DOES NOT APPLY"; exit 3; }
+git apply $SRC/patch.diff 2>/dev/null || git apply --3way $SRC/patch.diff || { echo "PATCH DOES NOT APPLY"; exit 3; }
 VERIF_NOCROSS=1 /verif/bin/gosmt check $C --tier $T > /tmp/seedcheck_$P$V.log 2>&1
 rc=$?
 git -C /repo checkout -- .
